@@ -25,11 +25,17 @@ def model_check(ctx):
             _need_cov(r, ["Step", "Finish"], c)
 
 
-def _eff_case(cid, fn, pts, wt, dtype=float, wdiv=1, wshape=None):
+def _eff_case(cid, fn, pts, wt, dtype=float, wdiv=1, wshape=None, colscale=None, wscale=None):
     """the function receives the points in `dtype` and the weights wt / wdiv (a common positive factor, so the weighted
     order of every objective - all TLC needs - is that of the integer weights)"""
     f = np.array(pts, dtype=dtype).reshape(len(pts), len(wt))
     w = np.array(wt, dtype=float) / wdiv
+    # objectives on very different scales: each column of the points (colscale) or each weight (wscale) multiplied by a positive power of
+    # two -- exact in floating point, and without effect on which points are efficient (TLC is given the unscaled integers)
+    if colscale is not None:
+        f = f * np.array(colscale, dtype=float)[None, :]
+    if wscale is not None:
+        w = w * np.array(wscale, dtype=float)
     if wshape is not None:
         w = w.reshape(wshape)
     f0 = f.copy(); w0 = w.copy()
@@ -97,6 +103,11 @@ def run(ctx):
         wt = [rng.choice([-3, -2, -1, 1, 2, 3]) for _ in range(nobj)]
         cid += 1
         allc.append(_eff_case(cid, is_pareto_efficient, pts, wt))
+        if _ % 4 == 0 and npt <= 13:
+            sc = [2.0 ** rng.choice([0, 0, 57, 60, -57, -40, 30]) for _o in range(nobj)]
+            cid += 1
+            allc.append(_eff_case(cid, is_pareto_efficient, pts, wt, colscale=sc) if _ % 8 == 0 else
+                        _eff_case(cid, is_pareto_efficient, pts, wt, wscale=sc))
     # (C) large clouds (beyond any block size an implementation may use) whose first objective takes few levels, so that
     # big groups tied in one objective are resolved only by the others; systematic sizes around powers of two
     sizes = [127, 128, 129, 130, 200, 255, 256, 257, 300, 400] + ([513, 640, 1025] if thorough else [])
